@@ -5,6 +5,7 @@ CONSTANTS
   HistVals = {"v100"}
   HistCounts = {1}
   GaugeOps = {"set", "set0", "setneg0", "inc", "dec0"}
+  RecHows = {"loop"}
 SPECIFICATION Spec
 INVARIANT Emit
 INVARIANT UnitInv
